@@ -65,6 +65,7 @@ def run_bringup(ncp_v, path_kind="serial", second_reset=False, fault=None):
                 return data
             if d == "h2n" and i == idx:
                 out["fault_hit"] = "RST" if bytes(data).lstrip(b"\x1a").startswith(b"\xc0") else "other"
+                out["fault_phase"] = len(out["phases"])
                 if kind == "drop":
                     return None
                 if kind == "corrupt":
@@ -80,6 +81,7 @@ def run_bringup(ncp_v, path_kind="serial", second_reset=False, fault=None):
             counters["n2h"] += 1
             if d == "n2h" and i == idx:
                 out["fault_hit"] = "RSTACK" if bytes(fr)[:1] == b"\xc1" else "other"
+                out["fault_phase"] = len(out["phases"])
                 if kind == "drop":
                     return []
                 if kind == "corrupt":
@@ -212,6 +214,14 @@ class Check(PropertyCheck):
                 for k in (0, 1):
                     for kind in ("stale0", "stalecur"):
                         cases.append({"v": v, "path": path, "second": True, "fault": ("rst", k, kind)})
+        # the reset handshake has no retry: a lost or damaged RST / RSTACK makes that bring-up time out.  The NEXT reset on the
+        # same objects (a retry by the caller, the application's later reset) runs over a healthy line and must work
+        for v in ((4, 8, 13) if tier == "quick" else versions):
+            for path in ("serial", "socket-absent"):
+                for d in ("h2n", "n2h"):
+                    for kind in ("drop", "corrupt"):
+                        for second in (True, "app-quiet"):
+                            cases.append({"v": v, "path": path, "second": second, "fault": (d, 0, kind)})
         # the same frame lost two, three and four times in a row (the fifth transmission gets through)
         for v in ((4, 13) if tier == "quick" else (4, 7, 8, 13, 14, 15)):
             for path in (("serial", "socket-absent") if tier == "quick" else ("serial", "socket-seen", "socket-absent")):
@@ -294,6 +304,12 @@ class Check(PropertyCheck):
                 if recoverable:
                     return (f"bring-up of an NCP v{v} ({case['path']}) failed with {ph['done']} after a single {case['fault'][2]} fault "
                             f"on a {obs.get('fault_hit', 'no')} frame ({case['fault'][0]} #{case['fault'][1]})")
+                if ph["tag"] == "second" and case["fault"] is not None and case["fault"][0] in ("h2n", "n2h") \
+                        and case["fault"][2] in ("drop", "corrupt", "dup") and obs.get("fault_phase") == 0 \
+                        and obs["phases"][0]["done"] == "timeout":
+                    return (f"NCP v{v} ({case['path']}): the first reset handshake timed out (single {case['fault'][2]} fault on the "
+                            f"{obs.get('fault_hit')} frame); the next reset on the same objects, over a healthy line, ended with "
+                            f"{ph['done']} (RST written: {ph['rst_written']})")
                 continue
             if recoverable and ((ph.get("later") or "").startswith("raise") or ph.get("config") != "ok"):
                 return (f"NCP v{v} ({case['path']}): after a single {case['fault'][2]} fault the first command / the default configuration "
